@@ -14,7 +14,7 @@ MCView == <<chain, nid, bcast, spent, txb, bud, polls, wh, c, v, rep>>
 Last == sched[Len(sched)]
 Cmds == {"addc", "addv", "deliver", "csvtick"}
 Ended == /\ Idle
-         /\ Last.a \in {"rpc", "deliver", "cb"}
+         /\ Last.a \in {"rpc", "deliver", "cb", "cbv"}
 LastCmd == CHOOSE i \in 1..Len(sched) : sched[i].a \in Cmds /\ \A j \in (i + 1)..Len(sched) : sched[j].a \notin Cmds
 Clamp(x, lo, hi) == IF x < lo THEN lo ELSE IF x > hi THEN hi ELSE x
 Key == <<SubSeq(sched, LastCmd, Len(sched)),
